@@ -165,6 +165,25 @@ func runC06(cfg *config) *Report {
 				verifyControls(g, rep, map[string]any{"tree": dumpFile(g), "how": "one CashLetter variable given each cash letter's content in turn, Create, AddCashLetter(copy)"}, ":reused-variable")
 			}
 		}
+		if i%7 == 3 {
+			// every record type indicator a cash letter with items may carry (E: electronic data only, I: with images, F:
+			// with image views to follow): the totals are counted from the items whatever the header says about them
+			code := []string{"E", "I", "F"}[(i/7)%3]
+			rebuilt := true
+			for ci := range f.CashLetters {
+				if h := f.CashLetters[ci].CashLetterHeader; h != nil && len(f.CashLetters[ci].Bundles) > 0 {
+					h.RecordTypeIndicator = code
+				}
+				if f.CashLetters[ci].Create() != nil {
+					rebuilt = false
+				}
+			}
+			if !rebuilt || f.Create() != nil {
+				rep.count("record-type-indicator-refused:" + code)
+				continue
+			}
+			rep.count("record-type-indicator:" + code)
+		}
 		rep.Evaluations++
 		d := dumpFile(f)
 		rep.nontrivial(d)
